@@ -80,3 +80,71 @@ Proof.
   - reflexivity.
 Qed.
 Print Assumptions array_lens_exact.
+
+(* ---- which TYPE parameters a field type uses (the `x.full() == path` / `wraps()` tests of derive_struct_diff_struct) ----
+   The helper sees a bare path `n` everywhere in the type EXCEPT directly behind a reference that is not the field type itself: this is
+   known finding D8 (`Option<&'a T>`: T is not counted, the generated enums do not declare it), stated exactly. *)
+Definition self (n: string) (t: g) : bool :=
+  match t with GPath s0 segs _ => String.eqb s0 n && match segs with [] => true | _ => false end | _ => false end.
+Fixpoint kids (n: string) (t: g) : bool :=
+  match t with
+  | GPath _ _ args => existsb (fun a => self n a || kids n a) args
+  | GRef _ t' => kids n t'                      (* the referent itself is hidden by the `&` prefix of its base string; what it wraps is not *)
+  | GTuple l _ => existsb (fun a => self n a || kids n a) l
+  | GArray t' _ => self n t' || kids n t'
+  | GLt _ | GNever => false
+  end.
+Definition own (n: string) (t: g) : bool := match t with GRef _ t' => self n t' | _ => self n t end.
+Definition used_spec (n: string) (t: g) : bool := own n t || self n t || kids n t.
+
+Lemma wraps_eq c w rt ao : wraps_list (Ty c w rt ao) = (pr_rt rt ++ pr_cat c) :: match w with Some ws => flat_map wraps_list ws | None => [] end.
+Proof. reflexivity. Qed.
+Lemma is_name_path n s0 segs : is_kw s0 = false -> is_name n (pr_path (s0 :: segs)) = String.eqb s0 n && match segs with [] => true | _ => false end.
+Proof.
+  intros H. cbn [pr_path]. rewrite (kw_nonempty s0 H). cbn [app]. destruct segs as [|s1 r]; cbn [colons flat_map app is_name]; [rewrite andb_true_r; reflexivity|rewrite andb_false_r; reflexivity].
+Qed.
+Lemma existsb_flat {A} (f: A -> list (list tt)) n (l: list A) : existsb (is_name n) (flat_map f l) = existsb (fun a => existsb (is_name n) (f a)) l.
+Proof. induction l as [|a l IH]; [reflexivity|]. cbn [flat_map existsb]. rewrite existsb_app, IH. reflexivity. Qed.
+
+Definition node_ok (n: string) (t: g) : Prop :=
+  match embed t with Ty c w rt ao =>
+    is_name n (pr_rt rt ++ pr_cat c) = self n t /\ is_name n (pr_cat c) = own n t /\
+    existsb (is_name n) (match w with Some ws => flat_map wraps_list ws | None => [] end) = kids n t end.
+
+Lemma kids_list n (l: list g) : Forall (fun t => wf t -> node_ok n t) l -> wf_all l ->
+  existsb (is_name n) (flat_map wraps_list (map embed l)) = existsb (fun a => self n a || kids n a) l.
+Proof.
+  intros F W. apply wf_all_Forall in W. rewrite existsb_flat. induction l as [|x l IH]; [reflexivity|].
+  inversion F as [|? ? Fx Fl]; subst. inversion W as [|? ? Wx Wl]; subst. cbn [map existsb]. rewrite (IH Fl Wl). f_equal.
+  specialize (Fx Wx). unfold node_ok in Fx. destruct (embed x) as [c w rt ao]. destruct Fx as (A & _ & C). rewrite wraps_eq. cbn [existsb]. rewrite A, C. reflexivity.
+Qed.
+
+Lemma node_ok_all n : forall t, wf t -> node_ok n t.
+Proof.
+  induction t as [s0 segs args IH|lt t IH|l tr IH|t len IH|a|] using g_ind2; intros W; unfold node_ok.
+  - cbn in W. destruct W as [Hkw Wa]. fold (wf_all args) in Wa. cbn [embed pr_rt app pr_cat own self]. rewrite (is_name_path n s0 segs Hkw).
+    split; [reflexivity|split; [reflexivity|]]. destruct args as [|a0 args]; [reflexivity|]. cbn [kids]. apply (kids_list n _ IH Wa).
+  - cbn in W. destruct W as [Hb Wt]. specialize (IH Wt). unfold node_ok in IH. cbn [embed]. pose proof (embed_base_rt t Hb) as Hrt.
+    destruct (embed t) as [c w r ao]. subst r. destruct IH as (A & B & C). cbn [pr_rt app] in A.
+    split; [destruct lt; reflexivity|]. split; [cbn [own]; destruct t; try discriminate Hb; cbn [own] in B; exact B || (rewrite A; reflexivity) || exact A|]. exact C.
+  - cbn in W. destruct W as [_ Wl]. fold (wf_all l) in Wl. cbn [embed pr_rt app own self kids].
+    split; [reflexivity|split; [reflexivity|]]. rewrite flat_map_app, existsb_app. rewrite <- (kids_list n _ IH Wl).
+    destruct (tr || match l with [] => true | _ => false end); cbn; rewrite ?orb_false_r; reflexivity.
+  - cbn in W. destruct W as [Wt Hlen]. specialize (IH Wt). unfold node_ok in IH. cbn [embed pr_rt app own self kids flat_map].
+    split; [reflexivity|split; [reflexivity|]]. rewrite app_nil_r. destruct (embed t) as [c w r ao]. destruct IH as (A & _ & C).
+    rewrite wraps_eq. cbn [existsb]. rewrite A, C. reflexivity.
+  - repeat split; reflexivity.
+  - repeat split; reflexivity.
+Qed.
+
+Theorem param_used_exact : forall n t, wf t -> param_used n (embed t) = used_spec n t.
+Proof.
+  intros n t W. pose proof (node_ok_all n t W) as H. unfold node_ok in H. unfold param_used, used_spec. destruct (embed t) as [c w rt ao].
+  destruct H as (A & B & C). rewrite wraps_eq. cbn [existsb]. rewrite A, B, C. rewrite orb_assoc. reflexivity.
+Qed.
+(* known finding D8, exactly: a parameter directly behind a reference inside another type is not seen *)
+Example param_behind_reference_not_seen :
+  let t := GPath "Option" [] [GRef (Some "a") (GPath "T" [] [])] in wf t /\ param_used "T" (embed t) = false
+  /\ param_used "T" (embed (GRef (Some "a") (GPath "T" [] []))) = true /\ param_used "T" (embed (GPath "Vec" [] [GTuple [GPath "T" [] []; GPath "u8" [] []] false])) = true.
+Proof. cbn. repeat split; reflexivity. Qed.
+Print Assumptions param_used_exact.
